@@ -1,12 +1,14 @@
 package props
 
 import (
+	"bytes"
 	"context"
 	"flag"
 	"io"
 	"os"
 	"testing"
 
+	k8syaml "k8s.io/apimachinery/pkg/util/yaml"
 	"k8s.io/klog/v2"
 
 	"github.com/furiko-io/furiko/pkg/runtime/controllercontext/mock"
@@ -31,4 +33,8 @@ func newMockCtx() *mock.Context {
 		panic(err)
 	}
 	return ctx
+}
+
+func yamlUnmarshal(b []byte, out interface{}) error {
+	return k8syaml.NewYAMLOrJSONDecoder(bytes.NewReader(b), 4096).Decode(out)
 }
